@@ -10,6 +10,7 @@ import (
 	"sort"
 	"strings"
 	"sync"
+	"sync/atomic"
 	"time"
 )
 
@@ -108,6 +109,11 @@ type Setupper interface{ Setup(tier string) error }
 type Teardowner interface{ Teardown() }
 type Paralleler interface{ Parallel() int }
 
+// Suspecter lets a property flag an observation that took a long timeout (blocked, missing);
+// after a few of them the driver stops issuing new generated cases so that a broken tree is
+// reported in minutes, not hours.  The verdict itself is always Coq's.
+type Suspecter interface{ Suspect(o interface{}) bool }
+
 var props = map[string]Prop{}
 
 type caseRec struct {
@@ -189,16 +195,27 @@ func runCmd(args []string) int {
 	}
 	var wg sync.WaitGroup
 	sem := make(chan struct{}, par)
+	var suspects int32
+	sus, _ := p.(Suspecter)
+	ran := 0
 	for i := range recs {
+		if atomic.LoadInt32(&suspects) >= 3 && *casesFile == "" {
+			break
+		}
 		wg.Add(1)
 		sem <- struct{}{}
+		ran++
 		go func(i int) {
 			defer wg.Done()
 			defer func() { <-sem }()
 			recs[i].Obs = p.Run(recs[i].Case)
+			if sus != nil && sus.Suspect(recs[i].Obs) {
+				atomic.AddInt32(&suspects, 1)
+			}
 		}(i)
 	}
 	wg.Wait()
+	recs = recs[:ran]
 	if s, ok := p.(Teardowner); ok {
 		s.Teardown()
 	}
